@@ -30,6 +30,22 @@ impl Model<'_> {
             self.residual(current_values, &mut global_residual);
             // Re-evaluate the global jacobian, write it into self.jc
             self.refresh_jacobian(current_values);
+            #[cfg(feature = "verif-hooks")]
+            if crate::verif_hooks::trace_enabled() {
+                let sym = self.jc.sym.as_ref();
+                let mut jac = Vec::with_capacity(self.jc.vals.len());
+                for col in 0..sym.ncols() {
+                    for idx in sym.col_range(col) {
+                        jac.push((sym.row_idx()[idx], col, self.jc.vals[idx]));
+                    }
+                }
+                crate::verif_hooks::trace_push(crate::verif_hooks::TraceEvent::Iter {
+                    iteration: this_iteration,
+                    x: current_values.to_vec(),
+                    r: global_residual.clone(),
+                    jac,
+                });
+            }
 
             // Convergence check: if the residual is within our tolerance,
             // then the system is totally solved and we can return.
@@ -39,6 +55,10 @@ impl Model<'_> {
                 .reduce(libm::fmax)
                 .ok_or(NonLinearSystemError::EmptySystemNotAllowed)?;
             if largest_absolute_elem <= config.convergence_tolerance {
+                #[cfg(feature = "verif-hooks")]
+                crate::verif_hooks::trace_push(crate::verif_hooks::TraceEvent::Converged {
+                    iteration: this_iteration,
+                });
                 return Ok(SuccessfulSolve {
                     iterations: this_iteration,
                 });
@@ -75,12 +95,26 @@ impl Model<'_> {
                     *curr_val += d;
                 });
             let step_threshold = config.step_tolerance * (current_inf_norm + config.step_tolerance);
+            #[cfg(feature = "verif-hooks")]
+            if crate::verif_hooks::trace_enabled() {
+                crate::verif_hooks::trace_push(crate::verif_hooks::TraceEvent::Step {
+                    iteration: this_iteration,
+                    d: d.iter().copied().collect(),
+                    current_inf_norm,
+                    step_inf_norm,
+                    step_threshold,
+                });
+            }
 
             // Convergence check: if `d` is small enough,
             // then the system is at a local minimum. It might be inconsistent, and therefore
             // its residual will never get close to zero, but this is still a good least-squares solution,
             // so we can return.
             if step_inf_norm <= step_threshold {
+                #[cfg(feature = "verif-hooks")]
+                crate::verif_hooks::trace_push(crate::verif_hooks::TraceEvent::StepStop {
+                    iteration: this_iteration,
+                });
                 return Ok(SuccessfulSolve {
                     iterations: this_iteration,
                 });
